@@ -200,7 +200,9 @@ class _Num(object):
         r = self._cmp(o, lambda a, b: a != b)
         return True if r is NotImplemented else r
 
-    __hash__ = None
+    def __hash__(self):
+        # constant: every symbolic number collides, so dict/set membership is decided by __eq__ (a branch)
+        return 0
 
     def __bool__(self):
         zero = z3.IntVal(0) if isinstance(self, SymInt) else z3.RealVal(0)
